@@ -577,6 +577,31 @@ impl MarketConfig {
 
 gmsol_utils::flags!(MarketConfigFlag, MAX_MARKET_CONFIG_FLAGS, u128);
 
+/// Public entries to the by-key accessors, used only by the solver-based checks in `/verif`
+/// (`--cfg gmsol_verif`); thin wrappers only.
+#[cfg(gmsol_verif)]
+impl MarketConfig {
+    /// See `get`.
+    pub fn verif_get(&self, key: MarketConfigKey) -> Option<&Factor> {
+        self.get(key)
+    }
+
+    /// See `get_mut`.
+    pub fn verif_get_mut(&mut self, key: MarketConfigKey) -> Option<&mut Factor> {
+        self.get_mut(key)
+    }
+
+    /// See `flag`.
+    pub fn verif_flag(&self, flag: MarketConfigFlag) -> bool {
+        self.flag(flag)
+    }
+
+    /// See `set_flag`.
+    pub fn verif_set_flag(&mut self, flag: MarketConfigFlag, value: bool) -> bool {
+        self.set_flag(flag, value)
+    }
+}
+
 /// An entry of the config buffer.
 #[derive(AnchorSerialize, AnchorDeserialize, Clone, InitSpace)]
 #[cfg_attr(feature = "debug", derive(Debug))]
